@@ -5,7 +5,7 @@ import itertools, json
 
 
 def _mk(headers, checkpoints, npeers, start_heights, inv_ids, max_cf, max_batch, extra_batches=(),
-        params=None, batch_filter=None):
+        params=None, batch_filter=None, init_chains=((0,),), batches=None):
     ids = {h["id"]: h for h in headers}
     for h in headers:
         h.setdefault("kind", "ok")
@@ -16,6 +16,7 @@ def _mk(headers, checkpoints, npeers, start_heights, inv_ids, max_cf, max_batch,
         if h["id"] != 0:
             children.setdefault(h["parent"], []).append(h["id"])
     # all connected paths (downwards) of length 1..max_batch, not containing genesis
+    explicit = batches
     batches = []
 
     def walk(path):
@@ -30,9 +31,11 @@ def _mk(headers, checkpoints, npeers, start_heights, inv_ids, max_cf, max_batch,
             walk([h["id"]])
     if batch_filter:
         batches = [b for b in batches if batch_filter(b)]
+    if explicit is not None:
+        batches = [list(b) for b in explicit]
     for b in extra_batches:
         batches.append(list(b))
-    return {"headers": headers, "checkpoints": checkpoints, "npeers": npeers,
+    return {"init_chains": [list(c) for c in init_chains], "headers": headers, "checkpoints": checkpoints, "npeers": npeers,
             "start_heights": start_heights, "inv_ids": inv_ids, "max_cf": max_cf,
             "batches": batches, "params": params or {"retarget_blocks": 2016, "reduce_min_difficulty": True}}
 
@@ -69,11 +72,48 @@ def small():
         {"id": 7, "parent": 3, "work": 1, "kind": "badpow"},
         {"id": 8, "parent": 7, "work": 1},
         {"id": 9, "parent": 2, "work": 1},           # tie with 3
+        {"id": 10, "parent": 3, "work": 2},          # hard-bits child of an easy-bits parent (ancestor walk)
+        {"id": 11, "parent": 3, "work": 1, "kind": "badbits"},   # too easy for its timestamp
+        {"id": 12, "parent": 6, "work": 2, "kind": "badtime"},   # not after the median time, on a fork
+        {"id": 13, "parent": 10, "work": 1, "kind": "future"},   # too far in the future
     ]
     return _mk(H, {2: 2}, 2, [0, 5], [3], 2, 3, extra_batches=[[1, 3]])
 
 
-UNIVERSES = {"quick": quick, "small": small}
+def u1():
+    """Main quick universe: two checkpoints (heights 1 and 3), forks below / at / above them,
+    tie, heavier-by-one, a 2-deep reorganisation, one invalid header of every kind."""
+    H = [
+        {"id": 0, "parent": -1, "work": 2},
+        {"id": 1, "parent": 0, "work": 2},           # checkpoint at height 1
+        {"id": 2, "parent": 1, "work": 1},
+        {"id": 3, "parent": 2, "work": 1},           # checkpoint at height 3
+        {"id": 4, "parent": 3, "work": 1},
+        {"id": 5, "parent": 1, "work": 2},           # fork from checkpoint 1 ...
+        {"id": 6, "parent": 5, "work": 2},           # ... missing checkpoint 3
+        {"id": 7, "parent": 0, "work": 2},           # alternative at checkpoint height 1
+        {"id": 8, "parent": 7, "work": 2},
+        {"id": 9, "parent": 3, "work": 1},           # tie with 4
+        {"id": 10, "parent": 9, "work": 1},          # 9,10 heavier than 4
+        {"id": 11, "parent": 3, "work": 2},          # heavier than 4 by one unit
+        {"id": 12, "parent": 4, "work": 1},          # main chain continues 4,12
+        {"id": 13, "parent": 11, "work": 2},         # 11,13 heavier than 4,12: 2-deep reorg
+        {"id": 14, "parent": 4, "work": 1, "kind": "badpow"},
+        {"id": 15, "parent": 14, "work": 1},         # valid child of an invalid header
+        {"id": 16, "parent": 4, "work": 1, "kind": "badbits"},
+        {"id": 17, "parent": 12, "work": 2, "kind": "badtime"},  # timestamp == median time past
+        {"id": 18, "parent": 4, "work": 2},          # hard bits after an easy-bits parent
+        {"id": 19, "parent": 18, "work": 1, "kind": "future"},
+    ]
+    B = [[i] for i in (1, 2, 3, 4, 5, 6, 7, 9, 11, 12, 13, 14, 15, 16, 17, 18, 19)] + [
+        [1, 2], [2, 3], [1, 2, 3], [2, 3, 4], [3, 4], [4, 12], [3, 4, 12],
+        [5, 6], [1, 5, 6], [1, 5], [7, 8], [9, 10], [3, 9, 10], [11, 13], [3, 11, 13], [4, 11],
+        [12, 17], [4, 14, 15], [14, 15], [4, 16], [18, 19], [4, 18], [1, 3], [4, 4]]
+    return _mk(H, {1: 1, 3: 3}, 2, [0, 7], [4, 13], 2, 3, batches=B,
+               init_chains=[(0,), (0, 1), (0, 1, 2, 3), (0, 1, 2, 3, 4), (0, 1, 2, 3, 4, 12)])
+
+
+UNIVERSES = {"quick": quick, "small": small, "u1": u1}
 
 
 def tla(u):
@@ -98,5 +138,6 @@ def tla(u):
            "InvIds == {" + ", ".join(str(x) for x in u["inv_ids"]) + "}",
            "MaxCF == %d" % u["max_cf"],
            "Batches == <<" + ", ".join(seq(b) for b in u["batches"]) + ">>",
+           "InitChains == <<" + ", ".join(seq(c) for c in u["init_chains"]) + ">>",
            "===="]
     return "\n".join(out) + "\n"
